@@ -166,6 +166,10 @@ impl ECDSA {
     }
 
     pub fn sign_digest_with_deterministic_k(private_key: &PrivateKey, digest: &[u8]) -> Result<Signature, BSVErrors> {
+        if digest.len() != 32 {
+            return Err(BSVErrors::CustomECDSAError(format!("Digest must be 32 bytes long, got {} bytes", digest.len())));
+        }
+
         ECDSA::sign_digest_with_deterministic_k_impl(private_key, GenericArray::from_slice(digest))
     }
 }
